@@ -439,6 +439,30 @@ template<class L, class R>
                         "wrapper_mul", expect, exact, mixed_neg ? "negative_operand_unsigned_result" : (expect == E_VALUE ? "in_range" : "out_of_range"), id(),
                         [&] { return ci::to_rep(XS(a) * YS(b)); }, [&] { return ci::to_rep(XT(a) * YT(b)); }, [&] { return ci::to_rep(XR(a) * YR(b)); });
             }
+            // left shift with a WRAPPED count (overflow_integer << overflow_integer, << rounding_integer): the left
+            // operand's tag must still decide
+            if (!(B < Big(0))) {
+                using ResSh = decltype(L{} << R{});
+                Big exact;
+                int expect;
+                if (B >= Big(200)) {
+                    exact = A;  // only its sign matters
+                    expect = A.is_zero() ? E_VALUE : (A.neg ? E_NEG : E_POS);
+                } else {
+                    exact = A.shl(B.template to<int>());
+                    expect = classify<ResSh>(exact);
+                }
+                const char* region = expect == E_VALUE ? "in_range" : "out_of_range";
+                if (B >= Big(vals::bits_v<ResSh>)) region = A.is_zero() ? "shift_count_ge_width/lhs_zero" : "shift_count_ge_width/lhs_nonzero";
+                verify3<ResSh>(
+                        "wrapper_shl", expect, exact, region, id(), [&] { return ci::to_rep(XS(a) << YS(b)); }, [&] { return ci::to_rep(XT(a) << YT(b)); },
+                        [&] { return ci::to_rep(XR(a) << YR(b)); });
+                using RC = cnl::rounding_integer<R, cnl::native_rounding_tag>;
+                verify3<ResSh>(
+                        "wrapper_shl_rounding_count", expect, exact, region, id(), [&] { return ci::to_rep(XS(a) << RC(b)); }, [&] { return ci::to_rep(XT(a) << RC(b)); },
+                        [&] { return ci::to_rep(XR(a) << RC(b)); });
+            } else
+                vf::skip_pre();
             vf::counted(true);
         }
     }
